@@ -133,6 +133,74 @@ def record_events(text):
 
 
 # ----------------------------------------------------------------------------
+# control-flow trace of the real interpreter: (pc, decision) per executed command
+# ----------------------------------------------------------------------------
+def traced_interpreter(tpl, limit=4000):
+    """An HTMLTemplateInterpreter whose command handlers are wrapped: the wrappers only observe
+    the interpreter's registers before / after the real handler ran."""
+    simpleTAL, simpleTALES = _mods()
+    interp = simpleTAL.HTMLTemplateInterpreter(minimizeBooleanAtts=getattr(tpl, "minimizeBooleanAtts", 0))
+    trace = []
+    subs = [(v.startRange, v.endRangeSymbol) for v in tpl.macros.values()]
+    for op, args in tpl.commandList:
+        if op == simpleTAL.METAL_USE_MACRO:
+            subs.extend((v.startRange, v.endRangeSymbol) for v in args[1].values())
+
+    def sub_index(v):
+        key = (v.startRange, v.endRangeSymbol)
+        # only sub-templates of this very program can be named in the model
+        if v.commandList is not tpl.commandList or key not in subs:
+            return None
+        return subs.index(key)
+
+    def wrap(op, handler):
+        def run(command, args):
+            pc = interp.programCounter
+            had_rep = interp.repeatVariable is not None
+            handler(command, args)
+            tag = ["n"]
+            if op == simpleTAL.TAL_CONDITION:
+                tag = ["c", interp.programCounter == pc + 1]
+            elif op == simpleTAL.TAL_REPEAT and not had_rep:
+                rv = interp.repeatVariable
+                if rv is not None:
+                    tag = ["r", len(rv.sequence) - 1]
+                elif interp.programCounter == pc + 1:
+                    tag = ["r", "d"]
+                else:
+                    tag = ["r", "s"]
+            elif op == simpleTAL.TAL_CONTENT:
+                if interp.movePCForward is None:
+                    tag = ["v", "d"]
+                elif interp.tagContent is None:
+                    tag = ["v", "n"]
+                else:
+                    v = interp.tagContent[1]
+                    if isinstance(v, simpleTAL.Template):
+                        i = sub_index(v) if isinstance(v, simpleTAL.SubTemplate) else None
+                        tag = ["v", i] if i is not None else ["v", "foreign"]
+                    else:
+                        tag = ["v", "v"]
+            elif op == simpleTAL.METAL_USE_MACRO:
+                if interp.programCounter != pc + 1:
+                    i = sub_index(interp.tagContent[1])
+                    tag = ["m", i] if i is not None else ["m", "foreign"]
+                elif interp.movePCForward is not None:
+                    tag = ["m", "n"]
+                else:
+                    tag = ["m", "o"]
+            if len(trace) < limit:
+                trace.append([pc, tag])
+            else:
+                trace.append(None)
+                del trace[limit + 1:]
+        return run
+    for op in list(interp.commandHandler):
+        interp.commandHandler[op] = wrap(op, interp.commandHandler[op])
+    return interp, trace
+
+
+# ----------------------------------------------------------------------------
 # one TAL case
 # ----------------------------------------------------------------------------
 CANARY_NAME = "_verif_canary"
@@ -189,6 +257,20 @@ def run_case(case):
     if "snap" in want:
         res["snap1"] = snapshot(ctx)
     res["canary"] = list(canary())
+    if "trace" in want and res["exc"] is None:
+        # a second expansion, observed command by command (fresh context, same inputs)
+        ctx_t = make_context(case, main, lib)
+        out_t = io.StringIO()
+        interp, trace = traced_interpreter(main)
+        interp.initialise(ctx_t, out_t)
+        g0 = sorted(ctx_t.globals)
+        try:
+            main.expand(ctx_t, out_t, interpreter=interp)
+            res["trace"] = {"entries": trace, "same_output": out_t.getvalue() == res["out"], "globals0": g0,
+                            "locals1": sorted(ctx_t.locals), "globals1": sorted(ctx_t.globals)}
+        except BaseException as e:
+            res["trace"] = {"exc": type(e).__name__ + ": " + str(e)}
+        del canary()[:]
     if "bytes" in want and res["exc"] is None:
         del canary()[:]
         ctx2 = make_context(case, main, lib)
